@@ -274,6 +274,22 @@ for _p, _h in (("C04", [dict(name="ratio_in_unit_interval", crate="leaves", harn
                              claim="(elapsed_secs / bucket_secs) as u32 >= 2 whenever elapsed >= 2*bucket (idle clause of the sliding counter)")])):
     PROPS[_p]["kani"] = PROPS[_p].get("kani", []) + _h
 
+PROPS["C20"] = dict(
+    units=["bulkhead", "limiter", "cbcall", "retry", "timelimiter", "cache", "fallback", "reconnect", "adaptive", "coalesce", "chaos"],
+    title="Layers are transparent, honour Tower readiness; listeners only observe",
+    level_text="Deductive proof (Verus), per layer, on the real call and poll_ready bodies of 11 of the 13 middleware: (a) transparency — on the non-triggering path exactly one inner call carrying the unchanged request, the "
+               "result is the inner outcome wrapped only in the layer's pass-through variant, poll_ready returns the inner Poll mapped by that variant; (b) readiness — the inner-service contract has the PRECONDITION 'this "
+               "instance has been observed ready since its previous call' at every call site, and a clone is not ready; poll_ready's Ready(Ok) establishes it. Stacks compose because every layer's proved contract has the shape of "
+               "the assumed inner contract (meta-argument).",
+    level_note="Known findings: retry attempts >= 2 and reconnect retries call an instance without fresh readiness. Excluded by name: hedge and executor (tokio::select!/spawn bodies outside the dialect), time limiter's "
+               "non-cancelling path (R15), and clause (c) listeners: neither verifier models unwinding/catch_unwind; the only machine-checked fact is R2's side condition that dropped emit statements are effect-free.",
+    technique="contract-based deductive verification (Verus): the Tower contract as pre/postconditions of an inner-service shim, checked at every call site of 11 extracted call bodies",
+    design_ref="§6 C20",
+    assumptions=["Tower contract of the inner service (assumed shim)", "a clone of a service is not ready (strict services such as Buffer)", "listeners are observers (R2)"],
+    trusted=COMMON_TRUST,
+    excluded=["(c) listeners: panicking listeners / every listener receives every event (not decided)", "hedge, executor (not under contract)", "time limiter non-cancelling path", "stacks: composition is a meta-argument over the per-layer contracts"],
+)
+
 NOT_APPLICABLE = {
     "C12": "not built: hedge's body is a tokio::select! loop over spawned tasks; needs the select!/spawn rewrite R17 (DESIGN §7); nothing weaker is claimed in its place",
 }
